@@ -353,6 +353,14 @@ def run_case(case):
             # only judge samples the twin confirms to be boundary points (C01 judges the others)
             Lo = max(L, float(np.abs(O).max()))
             okb, amb = bnode.member(O, envo, TOL * Lo, Lo)
+            if "polyhedron" in geo.spec_ops(case["spec"]):
+                # a sample on the seam of a mesh surface and another leaf surface: whether it belongs to the boundary hangs on
+                # the ray based membership of a point ON the mesh, which is not reproducible from call to call (see 279):
+                # counted, not judged
+                lf_ = np.abs(np.stack(node.leaf_phis(O, envo), 0))
+                seam_ = (lf_ <= max(1e-4 * float(ext.max()), 1e-6)).sum(0) >= 2
+                res["counters"]["own_samples_on_mesh_seam_skipped"] = res["counters"].get("own_samples_on_mesh_seam_skipped", 0) + int((seam_ & okb & ~amb).sum())
+                amb = amb | seam_
             Po, Qo = _points(names_dims, O, envo, True)
             ans = _answer(Db, Po, Qo, res, mech, "own %s samples of boundary of %s" % (kind, info["desc"]))
             if ans is None:
